@@ -1,5 +1,7 @@
 package v1
 
+import "crypto/x509/pkix"
+
 var vOidCps = []int{1, 3, 6, 1, 5, 5, 7, 2, 1}
 var vOidUNotice = []int{1, 3, 6, 1, 5, 5, 7, 2, 2}
 
@@ -73,4 +75,69 @@ func vhPolicies() {
 	}
 	vReach("built")
 	vSameBytes(ext.Value, vTLV(0x30, want), "certificatePolicies value differs from the configured policies and qualifiers")
+}
+
+// vLongAscii: n bytes, first and last symbolic ASCII, middle fixed.
+func vLongAscii(name string, n int) string {
+	if n <= 2 {
+		return vAsciiString(name, n)
+	}
+	mid := make([]byte, n-2)
+	for i := range mid {
+		mid[i] = 'a'
+	}
+	return vAsciiString(name+".first", 1) + string(mid) + vAsciiString(name+".last", 1)
+}
+
+// vhLongValues: C07 at the DER length boundaries (short form, 0x81, 0x82):
+// one subjectAlternativeName dns / mail name, one OCSP URI (as first or second
+// entry), one CPS URI, one user notice text or organization, or an explicit
+// authority key identifier of 125..129, 253..257 or 300 bytes.
+func vhLongValues() {
+	lens := []int{125, 126, 127, 128, 129, 253, 254, 255, 256, 257, 300}
+	L := lens[vChoose("len", len(lens))]
+	var ext *pkix.Extension
+	var err error
+	var want []byte
+	switch vChoose("where", 8) {
+	case 0:
+		s := vLongAscii("dns", L)
+		ext, err = vCompile(SubjectAltName{Content: []SubjAltNameComponent{{Type: "dns", Name: s}, {Type: "mail", Name: "m"}}}.Builder())
+		want = vTLV(0x30, vCat(vTLV(0x82, []byte(s)), vTLV(0x81, []byte("m"))))
+	case 1:
+		s := vLongAscii("mail", L)
+		ext, err = vCompile(SubjectAltName{Content: []SubjAltNameComponent{{Type: "dns", Name: "d"}, {Type: "mail", Name: s}}}.Builder())
+		want = vTLV(0x30, vCat(vTLV(0x82, []byte("d")), vTLV(0x81, []byte(s))))
+	case 2:
+		s := vLongAscii("ocsp0", L)
+		ext, err = vCompile(AuthInfoAccess{Content: []SingleAuthInfo{{Ocsp: s}, {Ocsp: "http://b"}}}.Builder())
+		want = vTLV(0x30, vCat(vTLV(0x30, vCat(vDerOid(vOidOcsp), vTLV(0x86, []byte(s)))), vTLV(0x30, vCat(vDerOid(vOidOcsp), vTLV(0x86, []byte("http://b"))))))
+	case 3:
+		s := vLongAscii("ocsp1", L)
+		ext, err = vCompile(AuthInfoAccess{Content: []SingleAuthInfo{{Ocsp: "http://a"}, {Ocsp: s}}}.Builder())
+		want = vTLV(0x30, vCat(vTLV(0x30, vCat(vDerOid(vOidOcsp), vTLV(0x86, []byte("http://a")))), vTLV(0x30, vCat(vDerOid(vOidOcsp), vTLV(0x86, []byte(s))))))
+	case 4:
+		s := vLongAscii("cps", L)
+		ext, err = vCompile(CertPolicies{Content: []CertPolicy{{Oid: "1.2.3", Qualifiers: []PolicyQualifiers{{Cps: s}}}}}.Builder())
+		want = vTLV(0x30, vTLV(0x30, vCat([]byte{0x06, 0x02, 0x2a, 0x03}, vTLV(0x30, vTLV(0x30, vCat(vDerOid(vOidCps), vTLV(0x16, []byte(s))))))))
+	case 5:
+		s := vLongAscii("text", L)
+		ext, err = vCompile(CertPolicies{Content: []CertPolicy{{Oid: "1.2.3", Qualifiers: []PolicyQualifiers{{UserNotice: &UserNotice{Text: s}}}}}}.Builder())
+		want = vTLV(0x30, vTLV(0x30, vCat([]byte{0x06, 0x02, 0x2a, 0x03}, vTLV(0x30, vTLV(0x30, vCat(vDerOid(vOidUNotice), vTLV(0x30, vTLV(0x0c, []byte(s)))))))))
+	case 6:
+		s := vLongAscii("org", L)
+		ext, err = vCompile(CertPolicies{Content: []CertPolicy{{Oid: "1.2.3", Qualifiers: []PolicyQualifiers{{UserNotice: &UserNotice{Organization: s, Numbers: []int{7}}}}}}}.Builder())
+		ref := vTLV(0x30, vCat(vTLV(0x0c, []byte(s)), vTLV(0x30, []byte{0x02, 0x01, 0x07})))
+		want = vTLV(0x30, vTLV(0x30, vCat([]byte{0x06, 0x02, 0x2a, 0x03}, vTLV(0x30, vTLV(0x30, vCat(vDerOid(vOidUNotice), vTLV(0x30, ref)))))))
+	default:
+		id := []byte(vLongAscii("akid", L))
+		ext, err = vCompile(AuthKeyId{Content: AuthKeyIdContent{Id: binaryPrefix + vB64(id)}}.Builder())
+		want = vTLV(0x30, vTLV(0x80, id))
+	}
+	vAssert(err == nil && ext != nil, "a builder failed on long but valid content")
+	if err != nil || ext == nil {
+		return
+	}
+	vReach("built")
+	vSameBytes(ext.Value, want, "extension value differs from the reference encoding at a DER length boundary")
 }
